@@ -65,17 +65,27 @@ def expNegMax (tmax : Option α) (tau : α) : α :=
   | none => 0.0
   | some m => RealLike.exp ((-m) / tau)
 
-/-- continuous model: one summand of the log normalisation, `log a + log(e^{-tmin/τ} − e^{-tmax/τ})` -/
+/-- `np.log1p(-np.exp(-w / lifetimes))` for a window of width `w`; `w = inf` (`none`) gives `log1p(-0) = 0`
+    (`log1p(-x)` is written `log(1 − x)`: the same real function) -/
+def logWindow (width : Option α) (tau : α) : α :=
+  match width with
+  | none => 0.0
+  | some w => RealLike.log (1.0 - RealLike.exp ((-w) / tau))
+
+/-- continuous model: one summand of the log normalisation, in the factored form the code uses since the repair of
+    F13: `log a + (−tmin/τ + log1p(−e^{−(tmax − tmin)/τ}))` — the window probability `e^{−tmin/τ} − e^{−tmax/τ}` with
+    `e^{−tmin/τ}` pulled out of the logarithm, so that it cannot underflow to `log 0` -/
 def normTermCont (tmin : α) (tmax : Option α) (c : Comp α) : α :=
-  RealLike.log c.amp + RealLike.log (RealLike.exp ((-tmin) / c.tau) - expNegMax tmax c.tau)
+  RealLike.log c.amp + ((-tmin) / c.tau + logWindow (tmax.map fun m => m - tmin) c.tau)
 
 /-- `1 − exp(−Δ/τ)` -/
 def discFactor (step tau : α) : α := 1.0 - RealLike.exp ((-step) / tau)
 
-/-- discretised model: one summand of the log normalisation -/
+/-- discretised model: one summand of the log normalisation,
+    `log a + log τ + (−(tmin − Δ)/τ + log1p(−e^{−(tmax − tmin + Δ)/τ})) + log(1 − e^{−Δ/τ})` -/
 def normTermDisc (tmin : α) (tmax : Option α) (step : α) (c : Comp α) : α :=
   RealLike.log c.amp + RealLike.log c.tau
-    + RealLike.log (RealLike.exp ((-(tmin - step)) / c.tau) - expNegMax tmax c.tau)
+    + ((-(tmin - step)) / c.tau + logWindow (tmax.map fun m => m - tmin + step) c.tau)
     + RealLike.log (discFactor step c.tau)
 
 /-- `_exponential_mixture_log_likelihood_components` for one observation: one log-term per component -/
@@ -331,12 +341,59 @@ def Constraint.value (c : Constraint) (x : List Rat) : Rat :=
   1 - (x.take c.numFree).sum - c.sumFixed
 
 /-- `current_params[fitted_param_mask] = x` (boolean-mask assignment, values consumed in order) -/
-def scatter : List Rat → List Bool → List Rat → List Rat
+def scatter {β : Type} : List β → List Bool → List β → List β
   | [], _, _ => []
   | ps, [], _ => ps
   | p :: ps, false :: fs, xs => p :: scatter ps fs xs
   | p :: ps, true :: fs, [] => p :: scatter ps fs []
   | _ :: ps, true :: fs, x :: xs => x :: scatter ps fs xs
+
+/-- `v[fitted_param_mask]` (boolean-mask selection): the start vector `current_params[fitted_param_mask]`, the
+    bounds `[bound for bound, fitted in zip(bounds, fitted_param_mask) if fitted]` and the gradient entries
+    `jacobian(...)[fitted_param_mask]` handed to SLSQP -/
+def gather {β : Type} : List β → List Bool → List β
+  | p :: ps, true :: fs => p :: gather ps fs
+  | _ :: ps, false :: fs => gather ps fs
+  | _, _ => []
+
+/-! ## `_exponential_mle_optimize`: what is handed to SLSQP and what is reported back -/
+
+/-- everything `_exponential_mle_optimize` hands to `scipy.optimize.minimize`, and what it reports when the
+    optimiser answers `probe`: the parameters that are fitted, the start vector, the selected bounds, the reported
+    parameter vector (`current_params[fitted] = result.x`), the reported log-likelihood (`-result.fun`, the cost
+    evaluated by `cost_fun` at the reported vector) and the gradient `jac_fun` returns there -/
+structure Assembled where
+  fitted : List Bool
+  x0 : List Float
+  lo : List Float
+  hi : List Float
+  params : List Float
+  loglik : Float
+  grad : List Float
+
+/-- the default `initial_guess` (every public `DwelltimeModel` fit starts from it): amplitudes `np.ones(n)/n`, lifetimes
+    `np.mean(t) * n * fractions / np.sum(fractions)` with `fractions = 1, …, n` (exact rationals; `mean` is supplied) -/
+def defaultGuess (n : Nat) (mean : Rat) : List Rat :=
+  let fractions : List Rat := (List.range n).map fun k => ((k + 1 : Nat) : Rat)
+  List.replicate n (1 / (n : Rat)) ++ fractions.map fun f => mean * (n : Rat) * f / fractions.sum
+
+def ratToFloat (r : Rat) : Float := Float.ofInt r.num / Float.ofNat r.den
+
+/-- `none` = `ValueError` of `_handle_amplitude_constraint`.  `probe` is the optimiser's answer (ignored when nothing is
+    fitted: the code then returns `initial_guess, -cost_fun([])` without calling the optimiser). -/
+def assemble (n : Nat) (params : List Rat) (mask : Option (List Bool)) (probe : List Float)
+    (obs : List (Obs Float)) (minOfTmin maxOfTmax : Float) : Option Assembled :=
+  match handleConstraint n params mask with
+  | none => none
+  | some c =>
+    let p0 := c.params.map ratToFloat
+    let b := tauBounds minOfTmin maxOfTmax
+    let los := List.replicate n (1.0e-9 : Float) ++ List.replicate n b.1
+    let his := List.replicate n ((1.0 : Float) - 1.0e-9) ++ List.replicate n b.2
+    let reported := if gather p0 c.fitted = [] then p0 else scatter p0 c.fitted probe
+    let comps := ((reported.take n).zip (reported.drop n)).map fun (a, t) => (⟨a, t⟩ : Comp Float)
+    some ⟨c.fitted, gather p0 c.fitted, gather los c.fitted, gather his c.fitted, reported,
+      logLik comps obs, gather (jacobian comps obs) c.fitted⟩
 
 /-! ## Dwell-time data of a track group (exact rationals) -/
 
@@ -537,6 +594,44 @@ def firstError (excl om : Bool) : List (List Track) → Option String
     else if (extractGroup excl om g).isNone then some "RuntimeError"
     else firstError excl om gs
 
+/-! ## `KymoTrackGroup.fit_binding_times`: option defaults and error branches in front of the model -/
+
+/-- what `fit_binding_times` has decided when it constructs the `DwelltimeModel` -/
+structure FitCall where
+  rows : List Row
+  /-- `RuntimeWarning` "Some dwell times are zero" -/
+  removedZeros : Bool
+  /-- the minimum-time mode that was used (`observed_minimum` after the default) -/
+  observedMin : Bool
+  /-- `discretization_timestep=time_step if discrete_model else None` -/
+  stepHanded : Bool
+  /-- `UserWarning`: `observed_minimum` not given — the legacy default `True` is used -/
+  warnObservedMin : Bool
+  /-- `UserWarning`: `discrete_model` not given — the continuous model is used -/
+  warnDiscrete : Bool
+deriving Repr, DecidableEq
+
+/-- `fit_binding_times(n_components, exclude_ambiguous_dwells=…, observed_minimum=…, discrete_model=…)` up to the
+    constructor call: empty group → `RuntimeError`; `None` options take their legacy defaults; `n_components ∉ {1, 2}` →
+    `ValueError`; the extraction's own errors; no row left → `RuntimeError` -/
+def fitBindingTimes (nComp : Nat) (excl : Bool) (om disc : Option Bool) (tracks : List Track) :
+    Except String FitCall :=
+  if tracks = [] then .error "RuntimeError"
+  else
+    let om' := om.getD true
+    let disc' := disc.getD false
+    if nComp ≠ 1 ∧ nComp ≠ 2 then .error "ValueError"
+    else match firstError excl om' (tracksByKymo tracks) with
+      | some e => .error e
+      | none => match extract excl om' tracks with
+        | none => .error "RuntimeError"
+        | some (rows, removed) =>
+          if rows = [] then .error "RuntimeError"
+          else .ok ⟨rows, removed, om', disc', om.isNone, disc.isNone⟩
+
+def optBool? (s : String) : Option (Option Bool) :=
+  if s == "N" then some none else (bool? s).map some
+
 def soa? (s : String) : Option SoA :=
   if s.startsWith "[" then (floatList? s).map .arr else (float? s).map .scalar
 
@@ -610,6 +705,29 @@ def handle : List String → Option String
     | some c =>
       let v := if c.numFree = 0 then "none" else showRat (c.value x)
       some (showList showBool c.fitted ++ " " ++ toString c.numFree ++ " " ++ showRatList c.params ++ " " ++ v)
+  -- what _exponential_mle_optimize hands to the optimiser / reports for the optimiser's answer `probe`
+  | ["c15.assemble", n, params, mask, probe, ts, tmins, tmaxs, steps, lo, hi] => do
+    let n ← nat? n; let probe ← floatList? probe
+    -- `D:<mean>` = `initial_guess=None`: the default guess from the sample mean
+    let params ← if params.startsWith "D:" then (rat? (params.drop 2).toString).map (defaultGuess n) else ratList? params
+    let mask ← if mask == "N" then some none else (listOf? bool? mask).map some
+    let obs ← mkObs (← floatList? ts) (← floatList? tmins) (← floatList? tmaxs) (← steps? steps)
+    let lo ← float? lo; let hi ← float? hi
+    match assemble n params mask probe obs lo hi with
+    | none => some "ValueError"
+    | some a =>
+      some (showList showBool a.fitted ++ " " ++ showFloatList a.x0 ++ " " ++ showFloatList a.lo ++ " "
+        ++ showFloatList a.hi ++ " " ++ showFloatList a.params ++ " " ++ showFloat a.loglik ++ " "
+        ++ showFloatList a.grad)
+  -- fit_binding_times up to the constructor call: n_components, flags (N = not given), then one token per track
+  | "c15.fbt" :: n :: excl :: om :: disc :: tracks => do
+    let n ← nat? n; let excl ← bool? excl; let om ← optBool? om; let disc ← optBool? disc
+    let tracks ← tracks.mapM track?
+    match fitBindingTimes n excl om disc tracks with
+    | .error e => some e
+    | .ok c =>
+      some (showBool c.observedMin ++ " " ++ showBool c.stepHanded ++ " " ++ showBool c.warnObservedMin ++ " "
+        ++ showBool c.warnDiscrete ++ " " ++ showList showRow c.rows ++ " " ++ showBool c.removedZeros)
   -- dwell-time extraction: flags, then one token per track
   | "c15.extract" :: excl :: om :: tracks => do
     let excl ← bool? excl; let om ← bool? om
